@@ -3,7 +3,7 @@ from cfgcommon import COMMON_ASSUME
 CFG = {
 "level": "model_checking",
 "technique": "bounded-exhaustive enumeration of basis/lattice families against textbook references (interpolation argument for the (bi)linear and polynomial forms)",
-"jobs": [{"variant": "plain", "id": "C17"}],
+"jobs": [{"variant": "plain-c17", "id": "C17"}],
 "engine": "enum",
 "level_text": "Every member of explicitly stated finite families (quaternion tensor grid, all 26² lattice direction pairs plus a near-(anti)parallel ladder, all 16×16 matrix basis pairs, ~72k sparse integer matrices for det/inverse, TRS and mesh-transform grids, dyadic AABB lattices) is executed on the real code and compared with textbook references; exhaustive within the families, and by linearity/polynomial interpolation decisive for Add/Multiply/MulPosition/Rotate beyond them.",
 "level_note": "Trusted: the reference formulas in harness/props/c17 (Hamilton product, Leibniz determinant, Rodrigues). Assumes Rotate/Add/Multiply stay branch-free polynomial forms; values outside the grids are not claimed for Determinant/Inverse/RotationTo/AABB.",
